@@ -193,3 +193,29 @@ fn c11_1a_static_sound_chunk_independent() {
     kani::cover!(src[0].left != src[1].left);
     core::mem::forget(info); core::mem::forget(a); core::mem::forget(b); core::mem::forget(ha); core::mem::forget(hb);
 }
+
+// @ob id=C04.9a,C07.2c strength=bounded tier=quick timeout=1800 bound="3 symbolic frames, slice (1,3) (2 frames visible), sample rate 1; one set_loop_region / seek_to command, two callbacks" fn=sound/static_sound/sound.rs::StaticSound::{read_commands,seek_to,seek_to_index,on_start_processing}
+// @req a sliced sound; the handle issues set_loop_region(0.. to the end of the audio) and seek_to(1.0 s) before a callback
+// @ens the open-ended loop region ends at the end of the SLICE (num_frames of the slice, not of the underlying data); the seek lands on frame round-to-index(1.0 x sample_rate) of the slice and pushes exactly one frame into the resampler; a second callback without new commands re-applies nothing; the position reported to the handle is the heard frame / sample rate
+#[kani::proof]
+#[kani::unwind(8)]
+fn c04_9a_commands_respect_the_slice() {
+    let src = any_frames3();
+    let (mut s, mut h) = build(src, StaticSoundSettings::new(), Some((1, 3)));
+    assert!(num_frames(&s.frames, s.slice) == 2, "C04.9a: the slice exposes two frames");
+    h.set_loop_region(Region { start: PlaybackPosition::Samples(0), end: EndPosition::EndOfAudio });
+    s.on_start_processing();
+    assert!(s.transport.loop_region == Some((0, 2)), "C04.9a: a loop to the end of the audio ends at the end of the slice");
+    let pos_before = s.transport.position;
+    s.on_start_processing();
+    assert!(s.transport.loop_region == Some((0, 2)) && s.transport.position == pos_before, "C07.2c: commands are applied exactly once");
+    h.seek_to(1.0);
+    let heard_before = s.resampler.current_frame_index();
+    s.on_start_processing();
+    assert!(h.position() == heard_before as f64, "C04.9a: the reported position names the frame being heard (sample rate 1)");
+    assert!(s.transport.position == 1, "C04.9a: seek_to lands on the requested frame");
+    s.on_start_processing();
+    assert!(s.transport.position == 1, "C07.2c: the seek is not re-applied at the next callback");
+    kani::cover!(true);
+    core::mem::forget(s); core::mem::forget(h);
+}
